@@ -20,6 +20,7 @@ spec -> code, two specifications:
 """
 from __future__ import annotations
 
+import gc
 import multiprocessing as mp
 import os
 import sys
@@ -98,12 +99,13 @@ class TlcJobs:
         spec, cfg, workers, must_pass = self.specs[name]
         emit = self.scratch / f"{name}.ndjson"
         res = run_tlc(spec, cfg, self.scratch, workers=workers, heap="2g", env={"EMIT_FILE": emit}, must_pass=must_pass)
-        recs = list(read_emitted(emit)) if must_pass else []
-        emit.unlink(missing_ok=True)
-        return recs, res
+        return emit, res
 
     def get(self, name):
-        recs, res = self.futs[name].result()
+        # hand the records over and forget them: the parent must stay small, every replay forks it
+        emit, res = self.futs.pop(name).result()
+        recs = list(read_emitted(emit)) if self.specs[name][3] else []
+        emit.unlink(missing_ok=True)
         if self.specs[name][3]:
             self.run.add_tlc(res)
             if not recs:
@@ -144,8 +146,12 @@ def check(run: Run):
                 stats[group] = {"tlc_states": res.distinct, "tlc_transitions": res.generated, "tlc_wall_s": round(res.wall, 1),
                                 "cases": n, "disagreements": bad, "by_action": acts}
                 total += n
+                del recs
+                gc.collect()
             total += text_C20.check_text(run, stats, replay, jobs)
+            gc.collect()
             total += object_C20.check_object(run, stats, jobs)
+            gc.collect()
             total += long_C20.check_long(run, stats, jobs)
         finally:
             jobs.close()
